@@ -176,15 +176,6 @@ def impl_nsmap(a):
     return ok({"ns_map": [[k, v] for k, v in m.items()], "attrs": [[x.prefix, x.name] for x in attrs]})
 
 
-CORRS = [
-    Corr("gen.dtd_nsmap", gen_nsmap, impl_nsmap, nontrivial=lambda a, o: len(a["attrs"]) > 1,
-         describe="DtdParser.build_ns_map on constructed attribute lists vs model"),
-    Corr("gen.dtd_sites", gen_sites, impl_sites, canon=canon_sites, describe="DtdParser + DtdMapper.build_content vs model"),
-    Corr("gen.dtd_occurs", gen_sites, impl_occurs, canon=canon_occ, describe="DtdMapper attrs through the three occurrence handlers vs model"),
-    Corr("gen.dtd_fields", gen_fields, impl_fields, canon=canon_fields,
-         describe="whole real pipeline + stand-in renderer on a DTD: list-ness / requiredness of generated fields vs model"),
-]
-
 # ------------------------------------------------------------------ oracle
 ATTR_VARIANTS = [
     ('id CDATA #REQUIRED', "id", "req"),
@@ -325,6 +316,68 @@ def adapt_docs(op, a):
 
 
 ORACLES = [Oracle("c16.valid_docs", gen_docs, oracle_docs, covered=covered_docs)]
+
+
+def impl_e2e(a):
+    msg = oracle_docs(a)
+    return ok("faithful") if msg is None else {"err": msg[:160]}
+
+
+def spec_e2e(a):
+    """the property itself outside the listed findings: every DTD-valid document is accepted by
+    the strict parser and comes back with the same content and the prescribed attribute values"""
+    c = a["content"]
+    if len(set(G.dtd_names(c))) != len(G.dtd_names(c)):
+        return {"unspecified": "an element name at several sites (finding C16-duplicate-name-sites)"}
+    if not restricted(c):
+        return {"unspecified": "repetition on a sequence or inside a choice (findings C16-sequence-occurrence-dropped / C16-choice-overrides-child-occurrence)"}
+    return ok("faithful")
+
+
+def gen_restricted(rng):
+    """content models inside the property's own restriction, with pairwise distinct names"""
+    names = ["a", "b", "c", "d", "e", "f", "g"]
+    rng.shuffle(names)
+    items = []
+    for _ in range(rng.randint(1, 3)):
+        if not names:
+            break
+        if rng.random() < 0.5 and len(names) >= 2:
+            k = rng.randint(2, min(3, len(names)))
+            kids = [E(names.pop()) for _ in range(k)]
+            items.append({"k": "or", "o": rng.choice(["once", "opt", "mult", "plus"]), "c": kids})
+        else:
+            items.append(E(names.pop(), rng.choice(["once", "opt", "mult", "plus"])))
+    if len(items) == 1 and "n" in items[0]:
+        items.append(E(names.pop(), "opt"))
+    if len(items) == 1:
+        return items[0]
+    return {"k": "seq", "o": "once", "c": items}
+
+
+def gen_e2e(rng, tier):
+    for _ in range(n_cases(tier, 30, 2000)):
+        c = gen_restricted(rng)
+        if not valid_dtd(c):
+            continue
+        p = G.dtd_particle(c)
+        attrs = sorted(rng.sample(range(len(ATTR_VARIANTS)), rng.randint(0, 4)))
+        ns = None
+        if rng.random() < 0.5:
+            ns = {"decls": rng.sample(["dc", "ex", "p3"], rng.randint(1, 3)), "first": rng.random() < 0.5, "split": rng.random() < 0.5}
+        yield {"content": c, "words": [G.sample_word(rng, p) for _ in range(4)], "attrs": attrs, "ns": ns}
+
+
+CORRS = [
+    Corr("c16.e2e", gen_e2e, impl_e2e, spec=spec_e2e,
+         describe="spec-level: DTD (content model, ATTLIST variants, xmlns declarations) -> real pipeline (default and compound fields) -> strict parse of valid documents -> re-serialise; expected: faithful"),
+    Corr("gen.dtd_nsmap", gen_nsmap, impl_nsmap, nontrivial=lambda a, o: len(a["attrs"]) > 1,
+         describe="DtdParser.build_ns_map on constructed attribute lists vs model"),
+    Corr("gen.dtd_sites", gen_sites, impl_sites, canon=canon_sites, describe="DtdParser + DtdMapper.build_content vs model"),
+    Corr("gen.dtd_occurs", gen_sites, impl_occurs, canon=canon_occ, describe="DtdMapper attrs through the three occurrence handlers vs model"),
+    Corr("gen.dtd_fields", gen_fields, impl_fields, canon=canon_fields,
+         describe="whole real pipeline + stand-in renderer on a DTD: list-ness / requiredness of generated fields vs model"),
+]
 
 
 def finding_seq():
